@@ -239,4 +239,18 @@ theorem delete_exact (kb : KB) (h : Sorted kb) (k x : Nat) (p : String) (hk : kb
     kbGet (kstep kb (.delete k p)).1 x = if x = k then none else kbGet kb x := by
   simp [kstep, hk, kbGet_kbDel']
 
+/-! ### signature depth -/
+
+/-- The recursive count of the ante handler accepts a multisignature key exactly when the key holds, together with
+itself, no more keys than the limit: `1 + (number of keys below it, at any depth) ≤ limit`. This is the closed form
+the chain model uses (`Chain.sigDepthOK`). -/
+theorem validDepth_iff (limit : Nat) (ks : List PK) :
+    validDepth limit ks = true ↔ (ks = [] ∨ 1 + nodesList ks ≤ limit) :=
+  validDepth_spec limit ks
+
+/-- the two multisignature keys of the histories: m(p,p) counts 3, m(p,m(p,p)) counts 5 -/
+example : validDepth 3 [.leaf 0, .leaf 1] = true ∧ validDepth 2 [.leaf 0, .leaf 1] = false ∧
+    validDepth 5 [.leaf 2, .multi [.leaf 3, .leaf 4]] = true ∧ validDepth 4 [.leaf 2, .multi [.leaf 3, .leaf 4]] = false := by
+  refine ⟨?_, ?_, ?_, ?_⟩ <;> simp [← Bool.not_eq_true, validDepth_iff, nodesList, nodes]
+
 end Posmint.Props.C19
